@@ -74,3 +74,15 @@ pub fn hash_u64s(xs: &[u64]) -> u64 {
 pub fn hash_str(s: &str) -> u64 {
     crate::rng::hash_str(s)
 }
+
+/// at most `n` bytes of `s`, cut on a character boundary
+pub fn clip(s: &str, n: usize) -> &str {
+    if s.len() <= n {
+        return s;
+    }
+    let mut c = n;
+    while c > 0 && !s.is_char_boundary(c) {
+        c -= 1;
+    }
+    &s[..c]
+}
